@@ -5,15 +5,29 @@ use regex::{Captures, Regex};
 use std::borrow::Cow;
 
 pub(crate) fn escape_html_body(s: &str) -> Cow<'_, str> {
-    lazy_static! {
-        static ref REGEX: Regex = Regex::new("[<\"&]").unwrap();
+    // a `{` before another `{` would be read back as the start of a binding
+    let needs_escape = |i: usize, c: char| match c {
+        '<' | '"' | '&' => true,
+        '{' => s[(i + 1)..].starts_with('{'),
+        _ => false,
+    };
+    if !s.char_indices().any(|(i, c)| needs_escape(i, c)) {
+        return Cow::Borrowed(s);
     }
-    REGEX.replace_all(s, |caps: &Captures| match &caps[0] {
-        "<" => "&lt;".to_owned(),
-        "\"" => "&quot;".to_owned(),
-        "&" => "&amp;".to_owned(),
-        _ => unreachable!(),
-    })
+    let mut ret = String::with_capacity(s.len() + 8);
+    for (i, c) in s.char_indices() {
+        if needs_escape(i, c) {
+            ret.push_str(match c {
+                '<' => "&lt;",
+                '"' => "&quot;",
+                '&' => "&amp;",
+                _ => "&#123;",
+            });
+        } else {
+            ret.push(c);
+        }
+    }
+    Cow::Owned(ret)
 }
 
 pub(crate) fn escape_html_quote(s: &str) -> Cow<'_, str> {
